@@ -254,6 +254,8 @@ FontPre(ct) ==
   IF IsKwIn(ct, {"normal"}) \/ ct = N400 THEN <<>>
   ELSE IF IsKwIn(ct, {"bold"}) THEN <<N700>>
   ELSE IF ct.c = "ident" THEN <<Kw(ct.u)>> ELSE <<ct>>
+\* line-height: normal | <number> | <length-percentage>  (CSS 2.1 section 10.8.1)
+IsLineHeight(ct) == ct.c = "num" \/ IsLP(ct) \/ IsKwIn(ct, {"normal"})
 Font(cts) ==
   LET n == Len(cts)
       f[i \in 1..n + 1] == IF i > n THEN i ELSE IF IsFontPre(cts[i]) THEN f[i + 1] ELSE i
@@ -261,7 +263,8 @@ Font(cts) ==
       hasLh == si + 2 <= n /\ IsSlashCT(cts[si + 1])
       fi == IF hasLh THEN si + 3 ELSE si + 1
   IN IF n <= 1 THEN cts
-     ELSE IF HasOpaque(cts) \/ si > n \/ ~IsFontSize(cts[si]) \/ fi > n \/ (si + 1 <= n /\ IsSlashCT(cts[si + 1]) /\ ~hasLh) THEN <<OOD>>
+     ELSE IF HasOpaque(cts) \/ si > n \/ ~IsFontSize(cts[si]) \/ fi > n \/ (si + 1 <= n /\ IsSlashCT(cts[si + 1]) /\ ~hasLh)
+             \/ (hasLh /\ ~IsLineHeight(cts[si + 2])) THEN <<OOD>>
      ELSE Flatten([i \in 1..si - 1 |-> FontPre(cts[i])])
           \o <<Marker("size"), NormLP(cts[si]), Marker("line-height")>>
           \o (IF hasLh /\ ~IsKwIn(cts[si + 2], {"normal"}) THEN <<cts[si + 2]>> ELSE <<>>)
